@@ -188,7 +188,21 @@ func checkCutFeature(what string, got gts.Feature, want Feat, exp Loc, front, ba
 			return viol("site", "%s: site-only feature expected at %s, got %s (location %s)", what, elemsString(es), elemsString(as), ast)
 		}
 	}
-	if len(expRes) == 0 || skipMarkers {
+	if len(expRes) == 0 {
+		return nil
+	}
+	if skipMarkers {
+		// a source feature is exempt from "a cut end becomes partial": slicing leaves (makes) it complete, wherever it
+		// stands in the table. Markers the original carried on surviving residues may or may not be kept.
+		had := map[Marker]bool{}
+		for _, m := range keep {
+			had[m] = true
+		}
+		for _, m := range markers(ast) {
+			if !had[m] {
+				return viol("source-marker", "%s: source feature carries the partial marker %s after slicing (location %s)", what, m, ast)
+			}
+		}
 		return nil
 	}
 	act := outerMarkers(actDen, markers(ast))
